@@ -332,6 +332,7 @@ def donorBase (s : St) (rest : List String) : List String × Node :=
 def step1 (s : St) (w : List String) : St × String :=
   match w with
   | "light" :: _ => (s, "ok")
+  | ["outside-quantifier"] => (s, "ok")
   | ["snap", id] =>
     match findTrie s id.toNat! with
     | some (_, t) =>
